@@ -1,7 +1,8 @@
 ---------------------------- MODULE DataTxTrace ----------------------------
 (***************************************************************************)
 (* Trace validation for DataTx.  A trace is a list of per-cycle records     *)
-(*   [sv, sf, sl, sp, pid, rdy   -- stream valid/first/last/payload,        *)
+(*   [rst                        -- the clock domain's reset in this cycle   *)
+(*    sv, sf, sl, sp, pid, rdy   -- stream valid/first/last/payload,        *)
 (*                                   data_pid, tx_ready of the cycle        *)
 (*    sr, tv, td]                -- stream.ready, tx_valid, tx_data         *)
 (* sampled in the same cycle, before the clock edge.                        *)
@@ -25,9 +26,9 @@ TNext == /\ status = "ok"
          /\ LET r == Logs[tid][l]
                 i == InOf(r)
                 o == OutOf(r)
-                f == Failing(i, o)
+                f == IF r.rst /\ ~ResetLegal(i) THEN "env_illegal_input" ELSE Failing(i, o)
             IN /\ status' = f
-               /\ IF f = "ok" THEN Step(i, o) ELSE UNCHANGED vars
+               /\ IF f # "ok" THEN UNCHANGED vars ELSE IF r.rst THEN ResetStep(i, o) ELSE Step(i, o)
          /\ l' = l + 1
          /\ UNCHANGED tid
 
